@@ -1,5 +1,5 @@
 CONSTANT Full = TRUE
-CONSTANT Kinds = {"avx32", "sse16", "pshufb2", "ssse16"}
+CONSTANT Kinds = {"avx32", "sse16"}
 INIT Init
 NEXT Next
 INVARIANT SwizzleKernelsOK
